@@ -599,6 +599,79 @@ fn phase_sweep(quick: bool) -> (u64, u64, u64, Bad) {
     out
 }
 
+/// (f) Long lives: every phase program and a set of program heads clocked for 70 000 edges while the
+/// whole stimulus list is applied over and over (one stimulus every 97 edges, walked with a stride per
+/// program); all getters read every 500 edges. Counters that wrap after 2^8 / 2^16 steps get their turn.
+fn long_lives() -> (u64, u64, Bad) {
+    let mut machines: Vec<(String, Machine)> = vec![];
+    for (name, ram) in phase_programs() {
+        let mut m = Machine::new(MachineConfig::default());
+        m.raw_mut().set_stacksize(Stacksize::_16);
+        m.raw_mut().set_programsize(Programsize::Size(255));
+        *m.raw_mut().bus_mut().memory_mut() = ram;
+        machines.push((name, m));
+    }
+    for h in [[0x02u8, 0x02], [0xB4, 0xC9], [0x10, 0x28], [0xFB, 0xFF], [0x2C, 0x08], [0xF0, 0x1A], [0x4C, 0x00], [0x01, 0x00]] {
+        for v in 0..2u8 {
+            machines.push((format!("head {:02x?} variant {}", h, v), head_machine_v(&h, SIZES[(h[0] % 5) as usize], Programsize::Size(255), v)));
+        }
+    }
+    let ev: Vec<Ev> = stimuli().into_iter().filter(|e| !matches!(e, Ev::Edge)).collect();
+    let machines = mc::Shared(machines);
+    let mref = &machines;
+    let res = mc::par_ranges(mref.get().len(), mref.get().len(), |rg| {
+        let machines = mref.get();
+        let mut bad = Bad::new();
+        let mut runs = 0u64;
+        let mut edges = 0u64;
+        for i in rg {
+            runs += 1;
+            let (name, m0) = &machines[i];
+            let stride = 2 * (i % 20) + 1;
+            let line = format!("long name={} stride={}", name.replace(' ', "_"), stride);
+            let r = mc::catch(|| {
+                let mut m = m0.clone();
+                let mut k = 0usize;
+                let mut d = 0u64;
+                for e in 0..70_000u32 {
+                    if e % 97 == 0 {
+                        mc::watch::progress(|| format!("{} edge={}", line, e));
+                        let s = ev[(k * stride + i) % ev.len()];
+                        k += 1;
+                        apply(&mut m, s);
+                    }
+                    if e % 500 == 0 {
+                        d ^= read_everything(&m);
+                    }
+                    m.raw_mut().trigger_clock_edge();
+                }
+                d ^ read_everything(&m)
+            });
+            edges += 70_000;
+            if let Err(p) = r {
+                note(&mut bad, &p, line, format!("long life of {}", name));
+            }
+        }
+        mc::watch::idle();
+        (runs, edges, bad)
+    });
+    let mut out = (0, 0, Bad::new());
+    for (r, e, b) in res {
+        out.0 += r;
+        out.1 += e;
+        for (k, (cn, cases)) in b {
+            let x = out.2.entry(k).or_default();
+            x.0 += cn;
+            for cs in cases {
+                if x.1.len() < 4 {
+                    x.1.push(cs);
+                }
+            }
+        }
+    }
+    out
+}
+
 pub fn run() {
     let mut ctx = Ctx::from_args("exploration");
     if let Some(f) = ctx.replay_file.clone() {
@@ -698,6 +771,11 @@ pub fn run() {
     // (d)
     let (pruns, pedges, pdig, bd) = phase_sweep(quick);
     merge(&mut bad, bd);
+    // (f)
+    let (long_runs, long_edges, lbad) = long_lives();
+    merge(&mut bad, lbad);
+    ctx.set("long_life_runs", long_runs);
+    ctx.set("long_life_edges", long_edges);
     // (e) the same calls with every log line of the subject evaluated and formatted (what happens under
     // `2a-emulator -vvvv`): the address x value family in full, every 2-byte head with a coarser grid of
     // settings, the stimulus sequences one level shallower
